@@ -173,7 +173,7 @@ func Run(c Case) *Obs {
 	o := &Obs{}
 	var res result
 	hangCh := simrt.HangCh()
-	backstop := time.NewTimer(120 * time.Second)
+	backstop := time.NewTimer(900 * time.Second)
 	defer backstop.Stop()
 	poll := time.NewTicker(500 * time.Millisecond)
 	defer poll.Stop()
